@@ -56,3 +56,22 @@ def run(ctx):
         "host CPU executes AVX2/SSE4.2/MMX natively",
     ]
     return "exploration", cov, assumptions, res.viol
+
+
+def replay(rep):
+    """Re-run the recorded program (its whole input sweep) on the recorded target."""
+    import subprocess
+    import shutil
+    exe = vlib.build_engine("xprog", "plain")
+    scratch = vlib.scratch_dir("C01r")
+    env = vlib.scrub_env(scratch=scratch)
+    r = rep["replay"]
+    text = r.get("program") or r.get("desc")
+    fn = os.path.join(scratch, "replay.orc")
+    open(fn, "w").write(text if text.startswith(".function") else "")
+    args = [exe, "--levels", "L4", "--corpus", fn, "--classes", "both", "--targets", r.get("target", "avx,sse,mmx")]
+    p = subprocess.run(args, stdout=subprocess.PIPE, env=env, timeout=600)
+    shutil.rmtree(scratch, ignore_errors=True)
+    bad = [l for l in p.stdout.decode().splitlines() if '"t":"viol"' in l]
+    print("\n".join(b[:600] for b in bad[:5]) if bad else "replayed without violation")
+    return 1 if bad else 0
